@@ -64,13 +64,25 @@ func buildReport(p *Program, results []*FuncResult, stale []string, want map[str
 			}
 		}
 	}
+	failedPaths := map[string]bool{}
+	for _, fr := range results {
+		for _, ps := range fr.Paths {
+			for _, o := range ps.Obls {
+				if o.Kind != "cover" && o.Status != "unsat" {
+					failedPaths[fmt.Sprintf("%s#%d", o.Func, o.Path)] = true
+				}
+			}
+		}
+	}
 	for _, s := range r.Obls {
 		s.Instances = len(s.inst)
 		if s.Kind == "cover" {
 			s.Status = "vacuous"
 			s.Answer = "unsat"
 			for _, o := range s.inst {
-				if o.Status != "unsat" {
+				// an earlier failed obligation on the same path is assumed
+				// afterwards, so its cover probe says nothing
+				if o.Status != "unsat" || failedPaths[fmt.Sprintf("%s#%d", o.Func, o.Path)] {
 					s.Status = "reachable"
 					s.Answer = o.Status
 					s.Solver = o.Solver
